@@ -359,21 +359,75 @@ Definition top_norm (o : top) : top :=
   | TRaw m n => o
   end.
 
-(* what happens to the modules once they all exist: typed accesses through handles, and further
-   configurations (one entry each) included while the nodes already carry typed properties *)
-Inductive late := LTyped (t : top) | LInclude (k : str) (v : N).
+(* ---------------- mod.rs: long-lived typed handles (Prop<T>) ---------------- *)
+(* Prop::<T>::set through a handle: `assert!(slot.as_option().is_none_or(|prev| prev.is::<T>()))` - a slot that
+   holds a value of another type makes the call panic (record 9 4) before anything is written; otherwise the
+   slot becomes Entry::Some(value) *)
+Definition h_set (st : store) (name : str) (ty v : N) : store * list N :=
+  match get_raw name st with
+  | ESome t _ => if t =? ty then (s_put name (ESome ty (norm_val ty v)) st, [13; 0]) else (st, [9; 4])
+  | _ => (s_put name (ESome ty (norm_val ty v)) st, [13; 0])
+  end.
+(* Prop::<T>::get through a handle: `downcast_ref().expect("prop-type has changed, this handle is invalid")` *)
+Definition h_get (st : store) (name : str) (ty : N) : list N :=
+  match get_raw name st with
+  | ESome t n => if t =? ty then [14; 1; n] else [9; 5]
+  | _ => [14; 0]
+  end.
+(* creating a handle = RawProp::typed::<T>() *)
+Definition h_new (st : store) (name : str) (ty : N) : store * option terr :=
+  let '(e, r) := typed ty (get_raw name st) in (s_put name e st, r).
 
-Fixpoint run_late (mods : list (list str * store)) (ops : list late) : list (list str * store) * list N :=
+(* what happens to the modules once they all exist: typed accesses through fresh lookups, further
+   configurations (one entry each) included while the nodes already carry typed properties, typed handles
+   that are kept and used later, RawProp::clear *)
+Inductive late :=
+| LTyped (t : top) | LInclude (k : str) (v : N)
+| LHandle (m : N) (name : str) (ty : N)      (* h = prop::<T>(name), kept *)
+| LHset (h v : N)                            (* handles[h].set(v) *)
+| LHget (h : N)                              (* handles[h].get() *)
+| LClear (m : N) (name : str).               (* prop_raw(name).clear() *)
+
+Definition handle := option (nat * str * N).       (* module index, property, type; None: creation failed *)
+Definition mod_store (mods : list (list str * store)) (i : nat) : store := snd (nth i mods ([], [])).
+Definition set_store (mods : list (list str * store)) (i : nat) (st : store) := upd_nth i (fun mp => (fst mp, st)) mods.
+
+Fixpoint run_late (mods : list (list str * store)) (hs : list handle) (ops : list late)
+  : list (list str * store) * list N :=
   match ops with
   | [] => (mods, [])
   | LTyped o :: r =>
       let i := N.to_nat (top_mod o mod N.of_nat (length mods)) in
-      let '(st', out) := top_step (snd (nth i mods ([], []))) (top_name o) (top_norm o) in
-      let '(mods', outs) := run_late (upd_nth i (fun mp => (fst mp, st')) mods) r in
+      let '(st', out) := top_step (mod_store mods i) (top_name o) (top_norm o) in
+      let '(mods', outs) := run_late (set_store mods i st') hs r in
       (mods', out ++ outs)
   | LInclude k v :: r =>
       let c := cfg_new [(k, v)] in
-      run_late (map (fun mp => (fst mp, capture_for c (fst mp) (snd mp))) mods) r
+      run_late (map (fun mp => (fst mp, capture_for c (fst mp) (snd mp))) mods) hs r
+  | LHandle m name ty :: r =>
+      let i := N.to_nat (m mod N.of_nat (length mods)) in
+      let '(st', res) := h_new (mod_store mods i) name (ty mod 4) in
+      let '(mods', outs) := run_late (set_store mods i st')
+                                     (hs ++ [match res with None => Some (i, name, ty mod 4) | Some _ => None end]) r in
+      (mods', [8; match res with None => 0 | Some er => err_code er end] ++ outs)
+  | LHset h v :: r =>
+      match nth (N.to_nat (h mod N.of_nat (length hs))) hs None with
+      | Some (i, name, ty) =>
+          let '(st', out) := h_set (mod_store mods i) name ty v in
+          let '(mods', outs) := run_late (set_store mods i st') hs r in
+          (mods', out ++ outs)
+      | None => let '(mods', outs) := run_late mods hs r in (mods', [13; 7] ++ outs)
+      end
+  | LHget h :: r =>
+      let out := match nth (N.to_nat (h mod N.of_nat (length hs))) hs None with
+                 | Some (i, name, ty) => h_get (mod_store mods i) name ty
+                 | None => [14; 7]
+                 end in
+      let '(mods', outs) := run_late mods hs r in (mods', out ++ outs)
+  | LClear m name :: r =>
+      let i := N.to_nat (m mod N.of_nat (length mods)) in
+      let '(mods', outs) := run_late (set_store mods i (s_put name ENone (mod_store mods i))) hs r in
+      (mods', [15] ++ outs)
   end.
 
 (* ---------------- canonical output ---------------- *)
@@ -408,6 +462,11 @@ Definition dec_op (l : list N) : option (op * list N) :=
   | 5 :: r => let '(m, r0) := take1 r in let '(n, r1) := take_lp r0 in Some (OLate (LTyped (TRaw m n)), r1)
   | 6 :: r => let '(k, r1) := take_lp r in let '(v, r2) := take1 r1 in Some (OLate (LInclude k v), r2)
   | 7 :: r => let '(a, r1) := take1 r in Some (OGroup a, r1)
+  | 8 :: r => let '(m, r0) := take1 r in let '(n, r1) := take_lp r0 in let '(t, r2) := take1 r1 in
+              Some (OLate (LHandle m n t), r2)
+  | 9 :: r => let '(h, r0) := take1 r in let '(v, r1) := take1 r0 in Some (OLate (LHset h v), r1)
+  | 10 :: r => let '(h, r0) := take1 r in Some (OLate (LHget h), r0)
+  | 11 :: r => let '(m, r0) := take1 r in let '(n, r1) := take_lp r0 in Some (OLate (LClear m n), r1)
   | _ => None
   end.
 
@@ -448,7 +507,13 @@ Definition paths_of (ops : list op) : list str :=
   flat_map (fun o => match o with OModule p => [p] | _ => [] end) ops.
 Definition lates_of (ops : list op) : list late :=
   flat_map (fun o => match o with OLate l => [l] | _ => [] end) ops.
-Definition late_text (l : late) : str := match l with LTyped t => top_name t | LInclude k _ => k end.
+Definition late_text (l : late) : str :=
+  match l with
+  | LTyped t => top_name t
+  | LInclude k _ => k
+  | LHandle _ n _ | LClear _ n => n
+  | LHset _ _ | LHget _ => []
+  end.
 
 Definition valid_script (ops : list op) : bool :=
   forallb (fun e => valid_text (fst e)) (entries_of ops) &&
@@ -464,7 +529,7 @@ Definition level_out (mods : list (list str * store)) (lates : list late) : list
   flat_map (fun mp => dump 10 (snd mp)) mods ++
   match mods with
   | [] => []
-  | _ => let '(mods', outs) := run_late mods lates in
+  | _ => let '(mods', outs) := run_late mods [] lates in
          outs ++ flat_map (fun mp => dump 12 (snd mp)) mods'
   end.
 
